@@ -72,6 +72,12 @@ def queue_adders(P):
     return out
 
 
+def queue_key(P, name, off):
+    """a queue object: the global, or one slot of a file-static array of queues"""
+    gd = P.globals.get(name) or {}
+    return "%s+%d" % (name, off or 0) if str(gd.get("type") or "").startswith("[") else name
+
+
 def queue_roles(P):
     """queue object -> canonical role name, by the public reader that pops from it (public API names are the stable anchors):
     bidib_read_message -> 'uplink_queue', bidib_read_error_message -> 'uplink_error_queue', bidib_read_intern_message -> 'uplink_intern_queue'"""
@@ -91,8 +97,9 @@ def queue_roles(P):
             for i in g.all_insts():
                 if i.op == "load" and i["ptr"].get("k") == "global":
                     gd = P.globals.get(i["ptr"]["name"])
-                    if gd and gd.get("internal") and "GQueue" in (gd.get("type") or "") and i["ptr"]["name"] not in roles:
-                        roles[i["ptr"]["name"]] = role
+                    qk = queue_key(P, i["ptr"]["name"], i["ptr"].get("off", 0))
+                    if gd and gd.get("internal") and "GQueue" in (gd.get("type") or "") and qk not in roles:
+                        roles[qk] = role
             # only the reader itself: helpers receive the queue as an argument
     return roles
 
@@ -211,7 +218,8 @@ class Dispatch:
         a = rules.resolve_local(self.fn, rules.strip_casts(self.fn, call.args[k]))
         src = rules.load_source(self.fn, a)
         if src and src[0] == "global":
-            return self.qroles.get(src[1], src[1])
+            qk = queue_key(self.P, src[1], src[2] if len(src) > 2 else 0)
+            return self.qroles.get(qk, qk)
         return None
 
     def msg_arg_positions(self, call):
